@@ -2120,6 +2120,18 @@ class Mailbox:
             for msg_key in to_delete:
                 self.sequences[seq].discard(msg_key)
         self.num_recent = len(self.sequences["Recent"])
+
+        # The folder's .mh_sequences file must not keep mentioning the
+        # messages that were just removed: MH re-uses a freed message number
+        # for the next message added to the folder, which would then inherit
+        # the removed message's sequences (flags). Reading the sequences back
+        # from the folder drops the keys of messages that no longer exist
+        # (and keeps the `unseen` marks of newly delivered messages we have
+        # not looked at yet.)
+        #
+        if to_delete:
+            async with self.mh_sequences_lock:
+                self.set_sequences_in_folder(self.get_sequences_from_folder())
         await self.commit_to_db()
         self.optional_resync = False
 
